@@ -13,7 +13,7 @@ class FunctionCall:
         self._func = func
         self._args = args
         self._kwargs = kwargs
-        self._context = context
+        self._context = {**context, **func.globals}  # names of the caller, then those of the module of the function
         self._instance = self.args[0] if self.func.is_instance_method else None
         self._type_vars = dict()
         self._params_without_self = {k: v for k, v in self.func.signature.parameters.items() if v.name != 'self'}
@@ -186,7 +186,8 @@ class FunctionCall:
 
         if self.func.is_generator:
             return GeneratorWrapper(
-                wrapped=result, expected_type=expected_result_type, err_msg=self.func.err, type_vars=self.type_vars)
+                wrapped=result, expected_type=expected_result_type, err_msg=self.func.err, type_vars=self.type_vars,
+                context=self._context)
 
         msg = f'{self.func.err}Type hint of return value is incorrect: Expected type {expected_result_type} ' \
               f'but {result} of type {type(result)} was the return value which does not match.'
